@@ -42,9 +42,9 @@ Check(r) ==
            \/ Rej(r, IF r.accepted THEN "schema with duplicate field numbers or message types was accepted"
                      ELSE "valid schema was refused", [error |-> r.genError]))
      /\ (r.accepted /\ Accepts(s)) =>
-          /\ ((r.dirRelative = "ok" /\ r.dirNested = "ok" /\ r.dirAbsolute = "ok")
-                \/ Rej(r, "the package depends on where the output directory is located",
-                       [relative |-> r.dirRelative, nested |-> r.dirNested, absolute |-> r.dirAbsolute]))
+          /\ ((r.dirRelative = "ok" /\ r.dirNested = "ok" /\ r.dirAbsolute = "ok" /\ r.dirPopulated = "ok")
+                \/ Rej(r, "the package depends on where the output directory is located (relative, nested, absolute, already holding a package)",
+                       [relative |-> r.dirRelative, nested |-> r.dirNested, absolute |-> r.dirAbsolute, populated |-> r.dirPopulated]))
           /\ (r.deterministic \/ Rej(r, "two generation runs differ", [x |-> 0]))
           /\ (r.compiled \/ Rej(r, "the generated package does not compile", [error |-> r.compileErr]))
           /\ (r.behaviourOk \/ Rej(r, "a setter does not put exactly its own field on the wire or the getter does not return it",
